@@ -2,6 +2,8 @@ package bulking
 
 import (
 	"encoding/json"
+	"errors"
+	"io"
 	"net/http"
 )
 
@@ -33,7 +35,10 @@ func (h *JSONStreamBulkHandler) GetChannels(_ http.ResponseWriter, r *http.Reque
 				nextElement := &BulkElement{}
 				err := dec.Decode(nextElement)
 				if err != nil {
-					h.err = err
+					// the end of the body is the end of the bulk, not an error of the stream
+					if !errors.Is(err, io.EOF) {
+						h.err = err
+					}
 					return
 				}
 
@@ -59,6 +64,12 @@ func (h *JSONStreamBulkHandler) GetChannels(_ http.ResponseWriter, r *http.Reque
 	}()
 
 	return h.channel, h.receive, true
+}
+
+// StreamError reports, once the element channel is closed, why the stream could not be read
+// to its end (nil when it could).
+func (h *JSONStreamBulkHandler) StreamError() error {
+	return h.err
 }
 
 func (h *JSONStreamBulkHandler) Terminate(w http.ResponseWriter, r *http.Request) {
